@@ -162,12 +162,27 @@ def noJoinAfterStopCalledFrom (pre : Snap) (called : Bool) : List MStep → Bool
 
 def noJoinAfterStopCalled (tr : List MStep) : Bool := noJoinAfterStopCalledFrom (snap init) false tr
 
+/-- consumers are started with exactly the member id and generation of the last processed successful
+    join reply (what the coordinator knows the member by): `ids` = that pair.  A late reply of an older
+    request that rewrites the ids between the join and the sync reply would show here. -/
+def startsWithJoinIdsFrom (ids : Option (Nat × Int)) : List MStep → Bool
+  | [] => true
+  | m :: ms =>
+    let ids' := match m.ev with
+      | .joinDone (.ok mem g _ _) => if m.obs == [.badOp] then ids else some (mem, g)
+      | _ => ids
+    (m.obs.all fun
+      | .consumerStart _ _ _ g mem _ => ids' == some (mem, g.getD 0) && g.isSome
+      | _ => true) && startsWithJoinIdsFrom ids' ms
+
+def startsWithJoinIds (tr : List MStep) : Bool := startsWithJoinIdsFrom none tr
+
 /-- every C16 check, by name -/
 def checks : List (String × (List MStep → Bool)) :=
   [("fenced", fenced), ("startsCommitted", startsCommitted), ("joinAdopted", joinAdopted), ("joinAfterDrain", joinAfterDrain),
    ("joinNoRunning", joinNoRunning), ("evictionStopsFirst", evictionStopsFirst), ("oneJoin", oneJoin),
    ("heartbeatOnlyStable", heartbeatOnlyStable), ("afterStopOnlyLeave", afterStopOnlyLeave),
-   ("noJoinAfterStopCalled", noJoinAfterStopCalled)]
+   ("noJoinAfterStopCalled", noJoinAfterStopCalled), ("startsWithJoinIds", startsWithJoinIds)]
 
 def failing (tr : List MStep) : List String := (checks.filter fun c => !c.2 tr).map (·.1)
 
